@@ -33,6 +33,7 @@ import (
 	fakeGalaxyCli "tkestack.io/galaxy/pkg/ipam/client/clientset/versioned/fake"
 	galaxylister "tkestack.io/galaxy/pkg/ipam/client/listers/galaxy/v1alpha1"
 	"tkestack.io/galaxy/pkg/ipam/cloudprovider/rpc"
+	"tkestack.io/galaxy/pkg/ipam/floatingip"
 	ipamapi "tkestack.io/galaxy/pkg/ipam/api"
 	ipamcontext "tkestack.io/galaxy/pkg/ipam/context"
 	"tkestack.io/galaxy/pkg/ipam/schedulerplugin"
@@ -42,6 +43,22 @@ import (
 )
 
 func init() { Subcommands["plugin"] = pluginHistory }
+
+// pausingIPAM lets the harness stop a pool request right after it has counted the IPs the pool holds (its first ByPrefix)
+type pausingIPAM struct {
+	floatingip.IPAM
+	after func()
+}
+
+func (p *pausingIPAM) ByPrefix(prefix string) ([]*floatingip.FloatingIPInfo, error) {
+	r, err := p.IPAM.ByPrefix(prefix)
+	if p.after != nil {
+		f := p.after
+		p.after = nil
+		f()
+	}
+	return r, err
+}
 
 // ---- recording cloud provider with one scripted clean failure per section
 type fakeCloud struct {
@@ -549,6 +566,60 @@ func (w *plugWorld) runOp(c map[string]interface{}) map[string]interface{} {
 		default:
 			o["res"] = "err"
 			o["err"] = rec.Body.String()
+		}
+	case "pool_race":
+		// POST /v1/pool with pre-allocation, stopped right after it has counted the pool's IPs; the scheduler's Filter of a pod of
+		// that pool arrives meanwhile.  Both hold the pool mutex in galaxy-ipam, so Filter can only complete after the request.
+		paused, resume, doneA, doneB := make(chan struct{}), make(chan struct{}), make(chan struct{}), make(chan struct{})
+		pc := &ipamapi.PoolController{Client: w.gcli, PoolLister: galaxylister.NewPoolLister(w.poolIdx), LockPoolFunc: w.plugin.LockDpPool,
+			IPAM: &pausingIPAM{IPAM: w.plugin.GetIpam(), after: func() { close(paused); <-resume }}}
+		body, _ := json.Marshal(map[string]interface{}{"name": Str(c, "name"), "size": int(Num(c, "size")), "preAllocateIP": true})
+		code := 0
+		go func() {
+			req := httptest.NewRequest("POST", "/v1/pool", bytes.NewReader(body))
+			req.Header.Set("Content-Type", "application/json")
+			rec := httptest.NewRecorder()
+			resp := restful.NewResponse(rec)
+			resp.SetRequestAccepts("application/json")
+			pc.CreateOrUpdate(restful.NewRequest(req), resp)
+			code = rec.Code
+			close(doneA)
+		}()
+		select {
+		case <-paused:
+		case <-doneA:
+		case <-time.After(2 * time.Second):
+		}
+		var fnodes []string
+		var ferr error
+		pod, gerr := w.kube.CoreV1().Pods(Str(c, "ns")).Get(context.TODO(), Str(c, "pod"), metav1.GetOptions{})
+		go func() {
+			if gerr == nil {
+				nodes, _, err := w.plugin.Filter(pod, w.nodeList(c["nodes"].([]interface{})))
+				for _, n := range nodes {
+					fnodes = append(fnodes, n.Name)
+				}
+				ferr = err
+			}
+			close(doneB)
+		}()
+		during := false
+		select {
+		case <-doneB:
+			during = gerr == nil
+		case <-time.After(300 * time.Millisecond):
+		}
+		close(resume)
+		<-doneA
+		<-doneB
+		o["code"], o["filter_during_request"], o["nodes"] = code, during, fnodes
+		if ferr != nil {
+			o["filter_err"] = ferr.Error()
+		}
+		if code == 202 {
+			o["res"] = "notenough"
+		} else if code != 200 {
+			o["res"] = "err"
 		}
 	case "sync_pod":
 		obj, exists, _ := w.podIdx.GetByKey(Str(c, "ns") + "/" + Str(c, "name"))
